@@ -360,9 +360,11 @@ static std::string do_hb(const std::vector<std::string>& w)
 		{
 			std::string id;
 			if (p.size() >= 3 && !unhex(p[2], id)) return "bad-op";
-			std::string body(fld("35", p[1]) + fld("34", num(unsigned(rig.ss->_next_receive_seq))) + fld("49", you) + fld("56", me) + fld("52", stamp(BASE + t)));
+			// G: an application message three numbers AHEAD of the expected one (a gap: ResendRequest in the continuous state)
+			const bool gap(p[1] == "G");
+			std::string body(fld("35", gap ? std::string("D") : p[1]) + fld("34", num(unsigned(rig.ss->_next_receive_seq) + (gap ? 3 : 0))) + fld("49", you) + fld("56", me) + fld("52", stamp(BASE + t)));
 			if (p[1] == "0" || p[1] == "1") { if (p.size() >= 3) body += fld("112", id); }
-			else if (p[1] == "D")
+			else if (p[1] == "D" || gap)
 				body += fld("11", "c" + num(++clord)) + fld("21", "1") + fld("55", "BHP") + fld("54", "1") + fld("60", stamp(BASE + t)) + fld("38", "100") + fld("40", "1");
 			else if (p[1] != "5") return "bad-op";
 			rig.ss->update_received();
